@@ -177,6 +177,76 @@ struct CostEngine : EngineBase {
       free(s);
     }
   }
+  // SmallSet over a FlatSet in its large state: every call is forwarded to the FlatSet, so the budgets of the FlatSet apply unchanged
+  // (lookups and position searches logarithmic, a correct hint - also with a node - search-free)
+  // (a SmallSet over a FlatSet over std::vector does not compile at all - FlatSet::extract(const_iterator) needs pointer iterators - so
+  //  those configurations have nothing to measure here)
+  template <uintmax_t N, class S_ = Set>
+  typename std::enable_if<!std::is_pointer<typename S_::const_iterator>::value>::type run_small_over_flat(size_t) {}
+  template <uintmax_t N, class S_ = Set>
+  typename std::enable_if<std::is_pointer<typename S_::const_iterator>::value>::type run_small_over_flat(size_t n) {
+    typedef amc::SmallSet<E, N, Cmp, Alloc, Set> SS;
+    if (n <= N || n + 2 > static_cast<size_t>(VF_MAX_N)) return;
+    SS *s;
+    { MonScope m; s = static_cast<SS *>(malloc(sizeof(SS))); }
+    window([&] { new (s) SS(cmp); });
+    for (size_t i = 0; i < n; ++i) { int k = static_cast<int>(4 * (i + 1)); window([&] { s->emplace(k, static_cast<unsigned>(i)); }); }
+    if (static_cast<size_t>(s->size()) != n) harness_fail("cost engine: SmallSet construction failed");
+    const uint64_t bound = 2 * ceil_log2(n + 1) + 4, bound1 = 2 * ceil_log2(n + 2) + 4;
+    set_op("smallset-over-flatset(large)", fmt("N=%ju", static_cast<uintmax_t>(N)), n <= 16 ? "n<=16" : n <= 64 ? "n<=64" : "n>64", fmt("n=%zu bound=%ju", n, static_cast<uintmax_t>(bound)));
+    const SS &cs = *s;
+    for (size_t r = 0; r <= n && !g_cut; r += (n <= 40 ? 1 : n / 23 + 1)) {
+      for (int present = 0; present < 2; ++present) {
+        if (present && r >= n) continue;
+        int key = present ? static_cast<int>(4 * (r + 1)) : static_cast<int>(4 * r + 2);
+        E *e;
+        { MonScope m; e = new E(key, 777); }
+        auto hint_of = [&]() { MonScope m; auto it = cs.begin(); while (it != cs.end() && cmp(*it, *e)) ++it; return it; };
+        uint64_t c;
+        c = cost([&] { (void)cs.find(*e); }); judge("SmallSet(large, FlatSet)::find", c, bound, n, key); if (c > max_lookup) max_lookup = c;
+        c = cost([&] { (void)cs.contains(*e); }); judge("SmallSet(large, FlatSet)::contains", c, bound, n, key);
+        c = cost([&] { (void)cs.count(*e); }); judge("SmallSet(large, FlatSet)::count", c, bound, n, key);
+        if (!present) {
+          c = cost([&] { (void)s->insert(*e); }); judge("SmallSet(large, FlatSet)::insert", c, bound, n, key);
+          c = cost([&] { (void)s->erase(*e); }); judge("SmallSet(large, FlatSet)::erase(key)", c, bound1, n + 1, key);
+          c = cost([&] { (void)s->emplace(key, 778u); }); judge("SmallSet(large, FlatSet)::emplace", c, bound, n, key);
+          c = cost([&] { (void)s->erase(*e); });
+          { auto h = hint_of(); c = cost([&] { (void)s->insert(h, *e); }); }
+          judge("SmallSet(large, FlatSet)::insert(correct hint)", c, 6, n, key); if (c > max_hint) max_hint = c;
+          c = cost([&] { (void)s->erase(*e); });
+          { auto h = hint_of(); c = cost([&] { (void)s->emplace_hint(h, key, 779u); }); }
+          judge("SmallSet(large, FlatSet)::emplace_hint(correct hint)", c, 6, n, key); if (c > max_hint) max_hint = c;
+          typename SS::node_type nh;
+          c = cost([&] { nh = s->extract(*e); }); judge("SmallSet(large, FlatSet)::extract(key)", c, bound1, n + 1, key);
+          { auto h = hint_of(); c = cost([&] { (void)s->insert(h, std::move(nh)); }); }
+          judge("SmallSet(large, FlatSet)::insert(correct hint, node)", c, 6, n, key); if (c > max_hint) max_hint = c;
+          // (extract(position) does not compile for a FlatSet-backed SmallSet, see DESIGN.md)
+          c = cost([&] { nh = s->extract(*e); });
+          c = cost([&] { (void)s->insert(std::move(nh)); }); judge("SmallSet(large, FlatSet)::insert(node)", c, bound, n, key);
+          c = cost([&] { (void)s->erase(*e); });
+          if (static_cast<size_t>(cs.size()) != n) violation("C19", "cost.harness_restore", "SmallSet not restored");
+        } else {
+          c = cost([&] { (void)s->insert(*e); }); judge("SmallSet(large, FlatSet)::insert(present)", c, bound, n, key);
+          { auto h = hint_of(); c = cost([&] { (void)s->insert(h, *e); }); }
+          judge("SmallSet(large, FlatSet)::insert(hint at equivalent element)", c, 6, n, key); if (c > max_hint) max_hint = c;
+        }
+        MonScope m;
+        delete e;
+      }
+    }
+    window([&] { s->~SS(); });
+    MonScope m;
+    free(s);
+  }
+  void run_smallsets_large(long hidx) {
+    begin_history(0, hidx, 0xC19);
+    static const size_t ns[] = {2, 3, 5, 6, 9, 10, 17, 33, 40, 62, 90, 300, 1500};
+    for (size_t n : ns) {
+      if (g_cut) break;
+      run_small_over_flat<1>(n); run_small_over_flat<4>(n); run_small_over_flat<8>(n);
+    }
+    if (!g_cut) end_history_ok();
+  }
   void run_smallsets(long hidx) {
     begin_history(0, hidx, 0xC19);
     run_small<1>(); run_small<2>(); run_small<3>(); run_small<4>(); run_small<5>(); run_small<6>(); run_small<7>(); run_small<8>();
@@ -198,14 +268,15 @@ int main(int argc, char **argv) {
   size_t big[] = {100, 500, 1000, 4096};
   for (size_t b : big) sizes.push_back(b);
   if (a.has("--big")) sizes.push_back(20000);
-  long total = static_cast<long>(sizes.size()) + 1;  // last index = inline SmallSets
+  long total = static_cast<long>(sizes.size()) + 2;  // last two indices = inline SmallSets, SmallSets over a FlatSet in their large state
   long to = a.to < total ? a.to : total;
   long h = a.from;
   for (; h < to; ++h) {
     if (h < static_cast<long>(sizes.size())) {
       if (sizes[h] > static_cast<size_t>(VF_MAX_N)) { continue; }
       eng.run_size(sizes[h], h);
-    } else eng.run_smallsets(h);
+    } else if (h == static_cast<long>(sizes.size())) eng.run_smallsets(h);
+    else eng.run_smallsets_large(h);
     if (g_cut) break;
   }
   eng.counters["measured_calls"] = eng.n_measured;
